@@ -247,3 +247,54 @@ Remark fp_conformer_order_lemma D C fuel o (m1 m2 : mol D) :
   m_atoms D m1 = m_atoms D m2 -> m_bonds D m1 = m_bonds D m2 -> m_unit2 D m1 = m_unit2 D m2 ->
   run D C fuel o m1 = run D C fuel o m2.
 Proof. destruct m1, m2; simpl; intros; subst; reflexivity. Qed.
+
+(* ---- "all n! atom permutations": a permutation given as a table ------------------------------------------------------- *)
+(* x |-> t[x] if x is a key of the table, x otherwise *)
+Definition table_fun (t : list (Z * Z)) (x : Z) : Z := aget x t x.
+
+Lemma aget_in_table {A} (d : A) (t : list (Z * A)) k : In k (map fst t) -> In (k, aget d t k) t.
+Proof.
+  induction t as [|[k' v] r IH]; simpl; intro H; [contradiction|].
+  destruct (k =? k') eqn:E.
+  - apply Z.eqb_eq in E. subst. left. reflexivity.
+  - destruct H as [H|H]; [apply Z.eqb_neq in E; congruence|]. right. apply IH. exact H.
+Qed.
+
+Lemma aget_notin_table {A} (d : A) (t : list (Z * A)) k : ~ In k (map fst t) -> aget d t k = d.
+Proof.
+  induction t as [|[k' v] r IH]; simpl; intro H; [reflexivity|].
+  destruct (k =? k') eqn:E; [apply Z.eqb_eq in E; subst; exfalso; apply H; left; reflexivity|].
+  apply IH. intro; apply H; right; assumption.
+Qed.
+
+Lemma nodup_snd_inj (t : list (Z * Z)) x y v : NoDup (map snd t) -> In (x, v) t -> In (y, v) t -> x = y.
+Proof.
+  induction t as [|[k w] r IH]; simpl; intros Hnd Hx Hy; [contradiction|].
+  inversion Hnd as [|? ? Hn Hr]; subst.
+  destruct Hx as [Hx|Hx], Hy as [Hy|Hy].
+  - congruence.
+  - inversion Hx; subst. exfalso. apply Hn. apply in_map_iff. exists (y, v). auto.
+  - inversion Hy; subst. exfalso. apply Hn. apply in_map_iff. exists (x, v). auto.
+  - apply IH; assumption.
+Qed.
+
+Lemma table_fun_injective t : NoDup (map fst t) -> Permutation (map fst t) (map snd t) -> injective (table_fun t).
+Proof.
+  intros Hnd HP x y E. unfold table_fun in E.
+  assert (Hnds : NoDup (map snd t)) by (eapply Permutation_NoDup; eassumption).
+  destruct (in_dec Z.eq_dec x (map fst t)) as [Hx|Hx]; destruct (in_dec Z.eq_dec y (map fst t)) as [Hy|Hy].
+  - pose proof (aget_in_table x t x Hx) as H1. pose proof (aget_in_table y t y Hy) as H2. rewrite E in H1.
+    eapply nodup_snd_inj; eassumption.
+  - exfalso. pose proof (aget_in_table x t x Hx) as H1. rewrite (aget_notin_table y t y Hy) in E. rewrite E in H1.
+    apply Hy. apply (Permutation_in _ (Permutation_sym HP)). apply in_map_iff. exists (x, y). auto.
+  - exfalso. pose proof (aget_in_table y t y Hy) as H2. rewrite (aget_notin_table x t x Hx) in E. rewrite <- E in H2.
+    apply Hx. apply (Permutation_in _ (Permutation_sym HP)). apply in_map_iff. exists (y, x). auto.
+  - rewrite (aget_notin_table x t x Hx), (aget_notin_table y t y Hy) in E. exact E.
+Qed.
+
+Theorem fp_relabel_invariant_perm_lemma D C fuel o (t : list (Z * Z)) (m : mol D) :
+  ordlaws D -> cone_ok C ->
+  NoDup (map fst t) -> Permutation (map fst t) (map snd t) ->
+  NoDup (map (a_idx D) (m_atoms D m)) -> (o_stereo o = true -> gp_mol D o m) ->
+  fp_equal o (table_fun t) (run D C fuel o m) (run D C fuel o (relabel D (table_fun t) m)).
+Proof. intros. apply fp_relabel_invariant_lemma; try assumption. apply table_fun_injective; assumption. Qed.
